@@ -13,6 +13,13 @@
 //      colwise        colwise_norm dense / sparse vs long double
 //  mode "corr <casefile>": writes small dyadic-rational cases for the extracted exact model and prints the
 //    implementation's results as canonical lines (hex floats).
+// Eigen's index/structure assertions become exceptions: a library change that writes outside a sparse structure is then
+// reported with the failing case instead of aborting the harness
+#include <stdexcept>
+#define eigen_assert(x)                                           \
+  do {                                                            \
+    if (!(x)) throw std::logic_error("eigen_assert failed: " #x); \
+  } while (0)
 #include <algorithm>
 #include <cstring>
 #include <fstream>
@@ -341,6 +348,7 @@ static int prop_mode()
   const long N = thorough() ? 30000 : 3000;
   for (long idx = 0; idx < N; ++idx) {
     Case c      = gen_case(g);
+    try {
     const int m = c.J.rows(), n = c.J.cols();
     ++rep.evaluations;
     ++rep.strata["J." + c.sJ];
@@ -526,6 +534,14 @@ static int prop_mode()
       os << "{" << describe(c, idx) << ",\"cond\":" << jnum(K) << ",\"dx_dense\":" << (n <= 8 ? jvecs(xd) : std::string("\"(n>8)\""))
          << ",\"dphi_dense\":" << jnum(dphi_d) << ",\"dphi_sparse\":" << jnum(dphi_s) << "}";
       rep.sample(os.str());
+    }
+    } catch (const std::exception & ex) {
+      std::string w = ex.what();
+      for (auto & ch : w)
+        if (ch == '"' || ch == '\\') ch = '\'';
+      std::ostringstream os;
+      os << "{\"check\":\"crash\",\"variant\":\"exception\",\"what\":\"" << w.substr(0, 200) << "\"," << describe(c, idx) << "}";
+      rep.fail(os.str(), "crash.exception", static_cast<double>(c.J.size()));
     }
   }
   rep.print();
